@@ -375,6 +375,18 @@ class Solver:
         return None
 
     # ------------------------------------------------------------------ new-value classification
+    def _fresh_heap_ctor(self, n):
+        """a function of the crate that hands back a newly allocated HeapBuffer: returns HeapBuffer /
+        Result<HeapBuffer, _> and takes no existing buffer or handle (HeapBuffer has no Clone: a by-value
+        HeapBuffer that does not come from a handle can only be fresh; DUP / OWNPRIM audit the copies)"""
+        f = self.F.fns.get(n)
+        if not f:
+            return False
+        out = (f.get("output") or "").strip()
+        if not (out == "repr::heap_buffer::HeapBuffer" or out.startswith("core::result::Result<repr::heap_buffer::HeapBuffer,")):
+            return False
+        return not any(("HeapBuffer" in (a or "")) or ("repr::Repr" in (a or "")) or ("LeanString" in (a or "")) for a in f.get("inputs", []))
+
     def classify_new_value(self, body, tracked, e):
         """For `*self = X` / replace_inner(self, X): what does X own?
         -> (list of (kind, uniq), value_preserving: bool, description)"""
@@ -393,7 +405,7 @@ class Solver:
             t = body.term(e[1])
             n = callee_name(t)
             args = [strip_refs(body.origin_operand(a)) for a in t["args"]]
-            if n in ("repr::heap_buffer::HeapBuffer::new", "repr::heap_buffer::HeapBuffer::with_additional", "repr::heap_buffer::HeapBuffer::with_capacity"):
+            if self._fresh_heap_ctor(n):
                 return ([("H", True)], False, n)
             if n == "repr::Repr::from_heap":
                 src = self.unwrap_payload(body, args[0]) if args else None
@@ -405,7 +417,7 @@ class Solver:
                 if hb is not None:
                     ht = body.term(hb)
                     hn = callee_name(ht)
-                    if hn in ("repr::heap_buffer::HeapBuffer::new", "repr::heap_buffer::HeapBuffer::with_additional", "repr::heap_buffer::HeapBuffer::with_capacity", "repr::heap_buffer::HeapBuffer::with_exact_capacity"):
+                    if self._fresh_heap_ctor(hn):
                         vp = False
                         if hn != "repr::heap_buffer::HeapBuffer::with_capacity":
                             vp = self.is_text_of_self(body, tracked, body.origin_operand(ht["args"][0]))
@@ -439,7 +451,7 @@ class Solver:
                 inner = strip_refs(body.origin_operand(t["args"][0]))
                 if f[0] == "fn" and (f[3] or f[1]) == "repr::Repr::from_heap" and inner[0] == "call":
                     hn = callee_name(body.term(inner[1]))
-                    if hn in ("repr::heap_buffer::HeapBuffer::new", "repr::heap_buffer::HeapBuffer::with_additional", "repr::heap_buffer::HeapBuffer::with_capacity", "repr::heap_buffer::HeapBuffer::with_exact_capacity"):
+                    if self._fresh_heap_ctor(hn):
                         vp = hn != "repr::heap_buffer::HeapBuffer::with_capacity" and self.is_text_of_self(body, tracked, body.origin_operand(body.term(inner[1])["args"][0]))
                         return ([("H", True)], vp, hn)
             if n == "repr::Repr::from_str":
@@ -447,7 +459,7 @@ class Solver:
                 return ([("I", True), ("H", True)], vp, n)
             if n in ("repr::Repr::with_capacity", "repr::Repr::from_num"):
                 return ([("I", True), ("H", True)], False, n)
-            if n in ("repr::heap_buffer::HeapBuffer::new", "repr::heap_buffer::HeapBuffer::with_additional", "repr::heap_buffer::HeapBuffer::with_capacity"):
+            if self._fresh_heap_ctor(n):
                 return ([("H", True)], False, n)
             if n == "repr::Repr::from_static_str":
                 return ([("I", True), ("S", True)], False, n)
@@ -524,6 +536,16 @@ class Solver:
                 if s["k"] == "assign":
                     cur = self._assign(body, tracked, bb, si, s, cur)
             outs = self._terminator(body, tracked, bb, cur, exits)
+            tt = blk["term"]
+            if tt["k"] == "call" and tt.get("target") is not None and not tt["dest"]["p"] and self._multi_bool(body, tt["dest"]["l"]) and tt["target"] in outs:
+                # `let in_place = !a() || b();` - the flag's other definitions are constants: remember
+                # which value this path gave it (the switch on the flag reads it back)
+                L = tt["dest"]["l"]
+                split = set()
+                for t in outs[tt["target"]]:
+                    for v, t2 in self.eval_bool(body, tracked, ("call", bb), t):
+                        split.add(t2._replace(facts=frozenset(f for f in t2.facts if f[0] != ("bv", L)) | {(("bv", L), bool(v))}))
+                outs[tt["target"]] = split
             for tgt, ts in outs.items():
                 old = instate.get(tgt)
                 if old is None:
@@ -536,10 +558,29 @@ class Solver:
                         work.append(tgt)
         return sorted(exits, key=repr)
 
+    def _multi_bool(self, body, l):
+        return (body.local_ty(l) or "") == "bool" and len(body.defs.get(l, [])) > 1
+
     # -- statements
     def _assign(self, body, tracked, bb, si, s, cur):
         lhs = s["lhs"]
         out = set()
+        if not lhs["p"] and lhs["l"] != 0 and self._multi_bool(body, lhs["l"]):
+            L = lhs["l"]
+            rv = s["rv"]
+            for t in cur:
+                if rv["k"] == "use" and "c" in rv["a"] and "scalar" in rv["a"]["c"]:
+                    vals = [(bool(rv["a"]["c"]["scalar"]), t)]
+                else:
+                    try:
+                        vals = list(self.eval_bool(body, tracked, body.origin_rvalue(rv), t))
+                    except Exception:
+                        vals = []
+                if not vals:
+                    out.add(t._replace(facts=frozenset(f for f in t.facts if f[0] != ("bv", L))))
+                for v, t2 in vals:
+                    out.add(t2._replace(facts=frozenset(f for f in t2.facts if f[0] != ("bv", L)) | {(("bv", L), bool(v))}))
+            return out
         lhs_e = body._apply_proj(("param", lhs["l"]) if (tracked[0] == "param" and lhs["l"] == tracked[1]) else body.origin_local(lhs["l"]) if lhs["p"] else ("local", lhs["l"]), lhs["p"], ())
         whole = False
         partial = False
@@ -884,8 +925,22 @@ class Solver:
         e = body.origin_operand(t["discr"])
         e = strip_refs(e) if e[0] == "ref" else e
         if t["discr_ty"] == "bool":
+            dpl = t["discr"].get("mv") or t["discr"].get("cp")
+            flag = None
+            for _ in range(4):      # (`switchInt(move _t)` with `_t = copy flag`)
+                if not dpl or dpl["p"]:
+                    break
+                if self._multi_bool(body, dpl["l"]):
+                    flag = dpl["l"]
+                    break
+                ds_ = body.defs.get(dpl["l"], [])
+                if len(ds_) == 1 and ds_[0][1] != "term" and ds_[0][2]["k"] == "use":
+                    dpl = ds_[0][2]["a"].get("mv") or ds_[0][2]["a"].get("cp")
+                else:
+                    break
             for s in cur:
-                for v, s2 in self.eval_bool(body, tracked, e, s):
+                known = [f[1] for f in s.facts if f[0] == ("bv", flag)] if flag is not None else []
+                for v, s2 in ([(known[0], s)] if known else self.eval_bool(body, tracked, e, s)):
                     tgt = None
                     for av, ab in arms:
                         if av == (1 if v else 0):
